@@ -425,3 +425,457 @@ theorem arun_inv (sched : List Nat) : ∀ s, AInv s → AInv (run s sched) := by
   | cons t ts ih => intro s h; exact ih _ (astep_inv s t h)
 
 end MetricsVerif.Bucket
+
+/-! ## value accounting for ALL thread kinds -/
+namespace MetricsVerif.Bucket
+
+/-- thread-local: outside the push code the call being executed is not a push -/
+def RH (t : Thread) : Prop := isPusherPC t.pc = false → t.pc ≠ .start → ∀ v, t.calls.head? ≠ some (.push v)
+
+theorem RH_of_startPC (t : Thread) (h : t.pc = startPC t.calls) : RH t := by
+  intro hp _ v hv
+  cases hc : t.calls with
+  | nil => simp [hc] at hv
+  | cons c r =>
+    simp only [hc, List.head?_cons, Option.some.injEq] at hv
+    subst hv
+    simp [h, hc, startPC, pcOfCall, isPusherPC] at hp
+
+theorem RH_of_pusher (t : Thread) (h : isPusherPC t.pc = true) : RH t := by
+  intro hp; rw [h] at hp; cases hp
+
+theorem RH_of_head (t : Thread) (hh : ∀ v, t.calls.head? ≠ some (.push v)) : RH t := fun _ _ => hh
+
+theorem rh_step (s : Sys) (t : Thread) (h : RH t) : RH (stepThread s t).2 := by
+  unfold stepThread
+  cases hp : t.pc with
+  | start => exact RH_of_startPC _ rfl
+  | done => exact h
+  | pLoadTail => simp only; split <;> exact RH_of_pusher _ rfl
+  | pCasFirst => simp only; split <;> exact RH_of_pusher _ rfl
+  | pClaim blk r =>
+    simp only
+    split
+    · exact RH_of_pusher _ rfl
+    · split <;> exact RH_of_pusher _ rfl
+  | pPublish blk idx => exact RH_of_startPC _ rfl
+  | pCasNew old => simp only; split <;> exact RH_of_pusher _ rfl
+  | dLoadTail =>
+    simp only; have hh := h (by simp [hp, isPusherPC]) (by simp [hp])
+    split
+    · exact RH_of_startPC _ rfl
+    · exact RH_of_head _ hh
+  | dQuiesced blk => exact RH_of_head _ (h (by simp [hp, isPusherPC]) (by simp [hp]))
+  | dWait blk => exact RH_of_head _ (h (by simp [hp, isPusherPC]) (by simp [hp]))
+  | dRead blk => exact RH_of_head _ (h (by simp [hp, isPusherPC]) (by simp [hp]))
+  | dNext blk =>
+    simp only; have hh := h (by simp [hp, isPusherPC]) (by simp [hp])
+    split
+    · exact RH_of_startPC _ rfl
+    · exact RH_of_head _ hh
+  | cLoadTail =>
+    simp only; have hh := h (by simp [hp, isPusherPC]) (by simp [hp])
+    split
+    · exact RH_of_startPC _ rfl
+    · exact RH_of_head _ hh
+  | cCas old =>
+    simp only; have hh := h (by simp [hp, isPusherPC]) (by simp [hp])
+    split
+    · exact RH_of_head _ hh
+    · exact RH_of_startPC _ rfl
+  | cQuiesced blk => exact RH_of_head _ (h (by simp [hp, isPusherPC]) (by simp [hp]))
+  | cWait blk => exact RH_of_head _ (h (by simp [hp, isPusherPC]) (by simp [hp]))
+  | cRead blk => exact RH_of_head _ (h (by simp [hp, isPusherPC]) (by simp [hp]))
+  | cNext blk =>
+    simp only; have hh := h (by simp [hp, isPusherPC]) (by simp [hp])
+    split
+    · exact RH_of_startPC _ rfl
+    · exact RH_of_head _ hh
+  | eLoadTail =>
+    simp only; have hh := h (by simp [hp, isPusherPC]) (by simp [hp])
+    split
+    · exact RH_of_startPC _ rfl
+    · exact RH_of_head _ hh
+  | eLen blk => exact RH_of_startPC _ rfl
+
+theorem todo_eq (v : Nat) (t t' : Thread) (hc : t'.calls = t.calls) (h1 : ∀ b i, t.pc ≠ .pPublish b i)
+    (h2 : ∀ b i, t'.pc ≠ .pPublish b i) : todo v t' = todo v t := by
+  unfold todo
+  cases hp : t.pc <;> cases hp' : t'.pc <;> simp_all
+
+theorem todo_advance (v : Nat) (t : Thread) (r : Res) : todo v (t.advance r) = t.calls.tail.count (.push v) := by
+  have := (startPC_plain t.calls.tail).2
+  unfold todo
+  show (match startPC t.calls.tail with | .pPublish _ _ => _ | _ => _) = _
+  cases h : startPC t.calls.tail <;> simp_all [Thread.advance]
+
+theorem count_tail_of_head (calls : List Call) (v : Nat) (hh : ∀ w, calls.head? ≠ some (.push w)) :
+    calls.tail.count (.push v) = calls.count (.push v) := by
+  cases calls with
+  | nil => rfl
+  | cons c r =>
+    have : c ≠ .push v := fun e => hh v (by simp [e])
+    simp [List.count_cons, this]
+
+/-- a reader / clearer / is_empty thread finishing its call leaves its to-do pushes unchanged -/
+theorem todo_advance_reader (v : Nat) (t : Thread) (r : Res) (h : RH t) (hp : isPusherPC t.pc = false) (hs : t.pc ≠ .start) :
+    todo v (t.advance r) = todo v t := by
+  rw [todo_advance, count_tail_of_head _ _ (h hp hs)]
+  unfold todo
+  cases hpc : t.pc <;> simp_all [isPusherPC]
+
+def cnt (v : Nat) (b : Block) : Nat := (b.cells.map Cell.val).count v
+def csum (v : Nat) (bs : List Block) : Nat := (bs.map (cnt v)).sum
+
+theorem cellsCount_eq (v : Nat) (s : Sys) : cellsCount v s = csum v s.blocks := rfl
+
+theorem vals_after (v : Nat) (s : Sys) (tid : Nat) (t t' : Thread) (bs' : List Block) (tl' : Option Nat)
+    (hg : s.threads[tid]? = some t) (heq : csum v bs' + todo v t' = csum v s.blocks + todo v t)
+    (hle : csum v s.blocks ≤ csum v bs') :
+    (cellsCount v { B := s.B, blocks := bs', tail := tl', threads := setAt s.threads tid t' }
+      + todoSum v { B := s.B, blocks := bs', tail := tl', threads := setAt s.threads tid t' }
+        = cellsCount v s + todoSum v s)
+    ∧ cellsCount v s ≤ cellsCount v { B := s.B, blocks := bs', tail := tl', threads := setAt s.threads tid t' } := by
+  have := todoSum_set v s tid t t' hg
+  simp only [cellsCount_eq, todoSum] at *
+  omega
+
+theorem csum_append_empty (v : Nat) (bs : List Block) (nb : Block) (h : nb.cells = []) : csum v (bs ++ [nb]) = csum v bs := by
+  simp [csum, cnt, h]
+
+theorem csum_set (v : Nat) (bs : List Block) (blk : Nat) (b b' : Block) (hb : bs[blk]? = some b) :
+    csum v (setAt bs blk b') + cnt v b = csum v bs + cnt v b' := sum_map_setAt (cnt v) bs blk b' b hb
+
+/-- one step of ANY thread keeps (claimed cells holding `v`) + (pushes of `v` not yet claimed) constant, and never
+    removes a claimed cell -/
+theorem astep_vals (v : Nat) (s : Sys) (tid : Nat) (h : AInv s) (hr : ∀ (i : Nat) (t : Thread), s.threads[i]? = some t → RH t) :
+    (cellsCount v (step s tid) + todoSum v (step s tid) = cellsCount v s + todoSum v s)
+    ∧ cellsCount v s ≤ cellsCount v (step s tid) := by
+  unfold step
+  cases hg : s.threads[tid]? with
+  | none => exact ⟨rfl, Nat.le_refl _⟩
+  | some t =>
+    simp only
+    have hT := h.thr tid t hg
+    have hR := hr tid t hg
+    -- blocks unchanged, to-do unchanged
+    have same : ∀ (t'' : Thread) (tl' : Option Nat), todo v t'' = todo v t →
+        (cellsCount v { B := s.B, blocks := s.blocks, tail := tl', threads := setAt s.threads tid t'' }
+          + todoSum v { B := s.B, blocks := s.blocks, tail := tl', threads := setAt s.threads tid t'' }
+            = cellsCount v s + todoSum v s)
+        ∧ cellsCount v s ≤ cellsCount v { B := s.B, blocks := s.blocks, tail := tl', threads := setAt s.threads tid t'' } := by
+      intro t'' tl' e
+      exact vals_after v s tid t t'' s.blocks tl' hg (by rw [e]) (Nat.le_refl _)
+    unfold stepThread
+    cases hp : t.pc with
+    | start =>
+      simp only
+      refine same _ _ ?_
+      have hpl := (startPC_plain t.calls).2
+      exact todo_eq v t _ rfl (by simp [hp]) hpl
+    | done => simp only; rw [setAt_same _ _ _ hg]; exact ⟨rfl, Nat.le_refl _⟩
+    | pLoadTail =>
+      simp only
+      split <;> exact same _ _ (todo_eq v t _ rfl (by simp [hp]) (by simp))
+    | pCasFirst =>
+      simp only
+      split
+      · refine vals_after v s tid t { t with pc := .pClaim s.blocks.length false } (s.blocks ++ [newBlock]) _ hg ?_ ?_
+        · rw [csum_append_empty v _ _ rfl, todo_eq v t { t with pc := .pClaim s.blocks.length false } rfl (by simp [hp]) (by simp)]
+        · rw [csum_append_empty v _ _ rfl]; exact Nat.le_refl _
+      · exact same _ _ (todo_eq v t _ rfl (by simp [hp]) (by simp))
+    | pClaim blk r =>
+      simp only
+      have hlt := hT.claim_lt blk r hp
+      obtain ⟨b, hb⟩ : ∃ b, s.blocks[blk]? = some b := ⟨s.blocks[blk], List.getElem?_eq_getElem hlt⟩
+      rw [getBlock_eq hb]
+      obtain ⟨w, rest, hrest⟩ := hT.push_head (by simp [hp, isPusherPC])
+      have hcv : curVal t = w := by simp [curVal, hrest]
+      by_cases hw : b.write < s.B
+      · simp only [hw, if_true]
+        have hc := csum_set v s.blocks blk b { b with write := b.write + 1, cells := b.cells ++ [.written (curVal t)] } hb
+        have e1 : todo v t = (if w = v then 1 else 0) + rest.count (.push v) := by
+          simp only [todo, hp, hrest, List.count_cons]
+          by_cases hv : w = v <;> simp [hv] <;> omega
+        have e2 : todo v { t with pc := PC.pPublish blk b.write } = rest.count (.push v) := by
+          simp [todo, hrest]
+        have e3 : cnt v { b with write := b.write + 1, cells := b.cells ++ [.written (curVal t)] }
+            = cnt v b + (if w = v then 1 else 0) := by
+          simp only [cnt, List.map_append, List.count_append, List.map_cons, List.map_nil, Cell.val, List.count_cons,
+            List.count_nil, hcv]
+          by_cases hv : w = v <;> simp [hv]
+        refine vals_after v s tid t _ _ _ hg ?_ ?_
+        · show csum v (setAt s.blocks blk _) + _ = _
+          rw [e2, e1]; rw [e3] at hc; omega
+        · show _ ≤ csum v (setAt s.blocks blk _)
+          rw [e3] at hc; omega
+      · simp only [hw, if_false]
+        have hc := csum_set v s.blocks blk b { b with write := b.write + 1 } hb
+        have e3 : cnt v { b with write := b.write + 1 } = cnt v b := rfl
+        cases r with
+        | true =>
+          simp only [if_true]
+          have e := todo_eq v t { t with pc := .pLoadTail } rfl (by simp [hp]) (by simp)
+          refine vals_after v s tid t { t with pc := .pLoadTail } _ _ hg ?_ ?_
+          · show csum v (setAt s.blocks blk _) + _ = _
+            rw [e]; rw [e3] at hc; omega
+          · show _ ≤ csum v (setAt s.blocks blk _)
+            rw [e3] at hc; omega
+        | false =>
+          simp only [Bool.false_eq_true, if_false]
+          have e := todo_eq v t { t with pc := .pCasNew blk } rfl (by simp [hp]) (by simp)
+          refine vals_after v s tid t { t with pc := .pCasNew blk } _ _ hg ?_ ?_
+          · show csum v (setAt s.blocks blk _) + _ = _
+            rw [e]; rw [e3] at hc; omega
+          · show _ ≤ csum v (setAt s.blocks blk _)
+            rw [e3] at hc; omega
+    | pPublish blk idx =>
+      simp only
+      obtain ⟨b, hb, hcell⟩ := hT.pub_cell blk idx hp
+      rw [getBlock_eq hb]
+      have hc := csum_set v s.blocks blk b { b with cells := publishCell b.cells idx } hb
+      have e3 : cnt v { b with cells := publishCell b.cells idx } = cnt v b := by
+        simp [cnt, publishCell_vals]
+      have e1 : todo v t = t.calls.tail.count (.push v) := by simp [todo, hp]
+      refine vals_after v s tid t _ _ _ hg ?_ ?_
+      · show csum v (setAt s.blocks blk _) + _ = _
+        rw [todo_advance, e1]; rw [e3] at hc; omega
+      · show _ ≤ csum v (setAt s.blocks blk _)
+        rw [e3] at hc; omega
+    | pCasNew old =>
+      simp only
+      by_cases ht : s.tail = some old
+      · simp only [ht, if_true]
+        refine vals_after v s tid t { t with pc := .pClaim s.blocks.length true } (s.blocks ++ [{ newBlock with next := some old }]) _ hg ?_ ?_
+        · rw [csum_append_empty v _ _ rfl, todo_eq v t { t with pc := .pClaim s.blocks.length true } rfl (by simp [hp]) (by simp)]
+        · rw [csum_append_empty v _ _ rfl]; exact Nat.le_refl _
+      · simp only [ht, if_false]
+        exact same _ _ (todo_eq v t _ rfl (by simp [hp]) (by simp))
+    | dLoadTail =>
+      simp only
+      split
+      · exact same _ _ (todo_advance_reader v t _ hR (by simp [hp, isPusherPC]) (by simp [hp]))
+      · exact same _ _ (todo_eq v t _ rfl (by simp [hp]) (by simp))
+    | dQuiesced blk => simp only; exact same _ _ (todo_eq v t _ rfl (by simp [hp]) (by intro b i; split <;> simp))
+    | dWait blk => simp only; exact same _ _ (todo_eq v t _ rfl (by simp [hp]) (by intro b i; split <;> simp))
+    | dRead blk => simp only; exact same _ _ (todo_eq v t _ rfl (by simp [hp]) (by simp))
+    | dNext blk =>
+      simp only
+      split
+      · exact same _ _ (todo_advance_reader v t _ hR (by simp [hp, isPusherPC]) (by simp [hp]))
+      · exact same _ _ (todo_eq v t _ rfl (by simp [hp]) (by simp))
+    | cLoadTail =>
+      simp only
+      split
+      · exact same _ _ (todo_advance_reader v t _ hR (by simp [hp, isPusherPC]) (by simp [hp]))
+      · exact same _ _ (todo_eq v t _ rfl (by simp [hp]) (by simp))
+    | cCas old =>
+      simp only
+      by_cases ht : s.tail = some old
+      · simp only [ht, if_true]
+        exact same _ _ (todo_eq v t _ rfl (by simp [hp]) (by simp))
+      · simp only [ht, if_false]
+        exact same _ _ (todo_advance_reader v t _ hR (by simp [hp, isPusherPC]) (by simp [hp]))
+    | cQuiesced blk => simp only; exact same _ _ (todo_eq v t _ rfl (by simp [hp]) (by intro b i; split <;> simp))
+    | cWait blk => simp only; exact same _ _ (todo_eq v t _ rfl (by simp [hp]) (by intro b i; split <;> simp))
+    | cRead blk => simp only; exact same _ _ (todo_eq v t _ rfl (by simp [hp]) (by simp))
+    | cNext blk =>
+      simp only
+      split
+      · exact same _ _ (todo_advance_reader v t _ hR (by simp [hp, isPusherPC]) (by simp [hp]))
+      · exact same _ _ (todo_eq v t _ rfl (by simp [hp]) (by simp))
+    | eLoadTail =>
+      simp only
+      split
+      · exact same _ _ (todo_advance_reader v t _ hR (by simp [hp, isPusherPC]) (by simp [hp]))
+      · exact same _ _ (todo_eq v t _ rfl (by simp [hp]) (by simp))
+    | eLen blk =>
+      simp only
+      exact same _ _ (todo_advance_reader v t _ hR (by simp [hp, isPusherPC]) (by simp [hp]))
+
+end MetricsVerif.Bucket
+
+namespace MetricsVerif.Bucket
+
+/-- the all-threads invariant together with the thread-local head-call invariant -/
+structure AInv2 (s : Sys) : Prop where
+  inv : AInv s
+  rh : ∀ (i : Nat) (t : Thread), s.threads[i]? = some t → RH t
+
+theorem step_threads (s : Sys) (tid : Nat) (t : Thread) (hg : s.threads[tid]? = some t) :
+    (step s tid).threads = setAt s.threads tid (stepThread s t).2 ∧ (stepThread s t).1.threads = s.threads := by
+  have h2 : (stepThread s t).1.threads = s.threads := by
+    unfold stepThread
+    cases t.pc <;> simp only [setBlock] <;> (repeat' split) <;> rfl
+  refine ⟨?_, h2⟩
+  unfold step
+  rw [hg]
+  simp only [h2]
+
+theorem astep_inv2 (s : Sys) (tid : Nat) (h : AInv2 s) : AInv2 (step s tid) := by
+  refine ⟨astep_inv s tid h.inv, ?_⟩
+  cases hg : s.threads[tid]? with
+  | none => unfold step; rw [hg]; exact h.rh
+  | some t =>
+    rw [(step_threads s tid t hg).1]
+    intro i u hu
+    rcases threads_after hg i u hu with ⟨_, rfl⟩ | ⟨_, hu'⟩
+    · exact rh_step s t (h.rh tid t hg)
+    · exact h.rh i u hu'
+
+theorem init_ainv2 (B : Nat) (progs : List (List Call)) : AInv2 (init B progs) := by
+  refine ⟨init_ainv B progs, ?_⟩
+  intro i t ht
+  have hm : t ∈ (init B progs).threads := List.mem_of_getElem? ht
+  simp only [init, List.mem_map] at hm
+  obtain ⟨p, _, rfl⟩ := hm
+  intro _ hs; exact absurd rfl hs
+
+theorem arun_inv2 (sched : List Nat) : ∀ s, AInv2 s → AInv2 (run s sched) := by
+  induction sched with
+  | nil => intro s h; exact h
+  | cons t ts ih => intro s h; exact ih _ (astep_inv2 s t h)
+
+theorem arun_vals (v : Nat) (sched : List Nat) : ∀ s, AInv2 s →
+    cellsCount v (run s sched) + todoSum v (run s sched) = cellsCount v s + todoSum v s := by
+  induction sched with
+  | nil => intro s _; rfl
+  | cons t ts ih =>
+    intro s h
+    simp only [run, List.foldl_cons] at ih ⊢
+    rw [ih _ (astep_inv2 s t h), (astep_vals v s t h.inv h.rh).1]
+
+/-! ### readers never hand out anything but claimed cells (so: nothing but push arguments) -/
+
+def resVals : Res → List Nat
+  | .snapshot vs => vs
+  | .cleared vs => vs
+  | _ => []
+
+/-- everything a thread has been handed by the bucket so far (current call and finished calls) -/
+def seenVals (t : Thread) : List Nat := t.acc ++ t.results.flatMap resVals
+
+theorem seen_advance (t : Thread) (r : Res) (v : Nat) (h : v ∈ seenVals (t.advance r)) :
+    v ∈ t.results.flatMap resVals ∨ v ∈ resVals r := by
+  simpa [seenVals, Thread.advance, List.flatMap_append] using h
+
+/-- thread-local: a step only adds values read from an existing block's published prefix -/
+theorem seen_step (s : Sys) (t : Thread) (v : Nat) (h : v ∈ seenVals (stepThread s t).2) :
+    v ∈ seenVals t ∨ ∃ (blk : Nat) (b : Block), s.blocks[blk]? = some b ∧ v ∈ b.data := by
+  have keep : ∀ r, (resVals r = [] ∨ resVals r = t.acc) → v ∈ seenVals (t.advance r) → v ∈ seenVals t := by
+    intro r hr hv
+    rcases seen_advance t r v hv with h1 | h1
+    · simp [seenVals, h1]
+    · rcases hr with e | e
+      · rw [e] at h1; cases h1
+      · rw [e] at h1; simp [seenVals, h1]
+  have rd : ∀ blk pc', v ∈ seenVals { t with acc := t.acc ++ (getBlock s blk).data, pc := pc' } →
+      v ∈ seenVals t ∨ ∃ (blk : Nat) (b : Block), s.blocks[blk]? = some b ∧ v ∈ b.data := by
+    intro blk pc' hv
+    simp only [seenVals, List.mem_append] at hv ⊢
+    rcases hv with (h1 | h1) | h1
+    · exact Or.inl (Or.inl h1)
+    · cases hb : s.blocks[blk]? with
+      | none => simp [getBlock, hb, newBlock, Block.data] at h1
+      | some b => rw [getBlock_eq hb] at h1; exact Or.inr ⟨blk, b, hb, h1⟩
+    · exact Or.inl (Or.inr h1)
+  unfold stepThread at h
+  cases hp : t.pc with
+  | start => rw [hp] at h; exact Or.inl h
+  | done => rw [hp] at h; exact Or.inl h
+  | pLoadTail => rw [hp] at h; simp only at h; split at h <;> exact Or.inl h
+  | pCasFirst => rw [hp] at h; simp only at h; split at h <;> exact Or.inl h
+  | pClaim blk r =>
+    rw [hp] at h; simp only at h
+    split at h
+    · exact Or.inl h
+    · split at h <;> exact Or.inl h
+  | pPublish blk idx => rw [hp] at h; exact Or.inl (keep _ (Or.inl rfl) h)
+  | pCasNew old => rw [hp] at h; simp only at h; split at h <;> exact Or.inl h
+  | dLoadTail =>
+    rw [hp] at h; simp only at h
+    split at h
+    · exact Or.inl (keep _ (Or.inr rfl) h)
+    · exact Or.inl h
+  | dQuiesced blk => rw [hp] at h; exact Or.inl h
+  | dWait blk => rw [hp] at h; exact Or.inl h
+  | dRead blk => rw [hp] at h; exact rd blk _ h
+  | dNext blk =>
+    rw [hp] at h; simp only at h
+    split at h
+    · exact Or.inl (keep _ (Or.inr rfl) h)
+    · exact Or.inl h
+  | cLoadTail =>
+    rw [hp] at h; simp only at h
+    split at h
+    · exact Or.inl (keep _ (Or.inl rfl) h)
+    · exact Or.inl h
+  | cCas old =>
+    rw [hp] at h; simp only at h
+    split at h
+    · exact Or.inl h
+    · exact Or.inl (keep _ (Or.inl rfl) h)
+  | cQuiesced blk => rw [hp] at h; exact Or.inl h
+  | cWait blk => rw [hp] at h; exact Or.inl h
+  | cRead blk => rw [hp] at h; exact rd blk _ h
+  | cNext blk =>
+    rw [hp] at h; simp only at h
+    split at h
+    · exact Or.inl (keep _ (Or.inr rfl) h)
+    · exact Or.inl h
+  | eLoadTail =>
+    rw [hp] at h; simp only at h
+    split at h
+    · exact Or.inl (keep _ (Or.inl rfl) h)
+    · exact Or.inl h
+  | eLen blk => rw [hp] at h; exact Or.inl (keep _ (Or.inl rfl) h)
+
+theorem cnt_pos_of_data {b : Block} {v : Nat} (h : v ∈ b.data) : 0 < cnt v b := by
+  unfold cnt Block.data at *
+  apply List.count_pos_iff.mpr
+  simp only [List.mem_map] at h ⊢
+  obtain ⟨c, hc, e⟩ := h
+  exact ⟨c, (List.takeWhile_sublist _).subset hc, e⟩
+
+theorem le_sum_of_mem {α : Type} (f : α → Nat) (l : List α) (x : α) (h : x ∈ l) : f x ≤ (l.map f).sum := by
+  induction l with
+  | nil => cases h
+  | cons y ys ih =>
+    simp only [List.map_cons, List.sum_cons]
+    simp only [List.mem_cons] at h
+    rcases h with rfl | h
+    · omega
+    · have := ih h; omega
+
+/-- every value any thread has been handed sits in a claimed cell -/
+def SeenOK (s : Sys) : Prop := ∀ (i : Nat) (t : Thread), s.threads[i]? = some t → ∀ v ∈ seenVals t, 0 < cellsCount v s
+
+theorem astep_seen (s : Sys) (tid : Nat) (h : AInv2 s) (hs : SeenOK s) : SeenOK (step s tid) := by
+  cases hg : s.threads[tid]? with
+  | none => unfold step; rw [hg]; exact hs
+  | some t =>
+    intro i u hu v hv
+    have mono := (astep_vals v s tid h.inv h.rh).2
+    rw [(step_threads s tid t hg).1] at hu
+    rcases threads_after hg i u hu with ⟨_, rfl⟩ | ⟨_, hu'⟩
+    · rcases seen_step s t v hv with h1 | ⟨blk, b, hb, hd⟩
+      · have := hs tid t hg v h1; omega
+      · have h1 := cnt_pos_of_data hd
+        have h2 := le_sum_of_mem (cnt v) s.blocks b (List.mem_of_getElem? hb)
+        have : 0 < cellsCount v s := by rw [cellsCount_eq]; unfold csum; omega
+        omega
+    · have := hs i u hu' v hv; omega
+
+theorem init_seen (B : Nat) (progs : List (List Call)) : SeenOK (init B progs) := by
+  intro i t ht v hv
+  have hm : t ∈ (init B progs).threads := List.mem_of_getElem? ht
+  simp only [init, List.mem_map] at hm
+  obtain ⟨p, _, rfl⟩ := hm
+  simp [seenVals, mkThread] at hv
+
+theorem arun_seen (sched : List Nat) : ∀ s, AInv2 s → SeenOK s → SeenOK (run s sched) := by
+  induction sched with
+  | nil => intro s _ h; exact h
+  | cons t ts ih => intro s h hs; exact ih _ (astep_inv2 s t h) (astep_seen s t h hs)
+
+end MetricsVerif.Bucket
